@@ -91,21 +91,37 @@ def rule_wire(ctx):
         st = [n for n in walk_no_nested(init) if isinstance(n, ast.Assign) and any(isinstance(t, ast.Attribute) and t.attr == attr for t in n.targets)]
         ok = len(st) == 1 and src(st[0].value) == attr
         ctx.ob("C16.WIRE", st[0] if st else init, f"Server.{attr} stores the constructor argument `{attr}`", ok, f"Server.{attr} is not the constructor argument of the same name", construct=f"wire:server:{attr}")
-    table, _ = p.command_table()
+    # data streams: both directions bounded by the session's socket_timeout (directly, or through a helper of the control stream whose own
+    # timeouts are read<-idle_timeout / write<-socket_timeout)
+    ctl = {}
+    for c in walk_no_nested(d):
+        if isinstance(c, ast.Call) and last_attr(c.func) == "ThrottleStreamIO":
+            ctl = {k.arg: src(k.value).split(".")[-1] for k in c.keywords}
     n_data = 0
-    for verb in ("pasv", "epsv"):
-        if verb not in table:
-            continue
-        h = p.method("Server", table[verb])
+    for verb, h, st, ctor, how in data_stream_sites(p):
+        n_data += 1
         conn = p.handler_params(h)[0]
-        for c in ast.walk(h):
-            if isinstance(c, ast.Call) and last_attr(c.func) == "ThrottleStreamIO":
-                n_data += 1
-                kw = {k.arg: src(k.value) for k in c.keywords}
-                ok = kw.get("timeout") == f"{conn}.socket_timeout" and "read_timeout" not in kw and "write_timeout" not in kw
-                ctx.ob("C16.WIRE", c, f"{verb}: data stream timeout <- {kw.get('timeout')}", ok,
-                       f"{verb}: data stream timeouts are timeout={kw.get('timeout')} read={kw.get('read_timeout')} write={kw.get('write_timeout')}; both directions must be bounded by the session's socket_timeout",
-                       construct=f"wire:{verb}:{kw.get('timeout')},{kw.get('read_timeout')},{kw.get('write_timeout')}")
+        if ctor is None:
+            raise Inconclusive(f"C16.WIRE: {verb}: the data stream is built by `{src(st.value)[:60]}`, a shape this rule cannot follow")
+        kw = {k.arg: k.value for k in ctor.keywords}
+
+        def resolve(v):
+            """-> name of the configured timeout this expression carries"""
+            if v is None:
+                return None
+            s_ = src(v)
+            if how == "direct":
+                return s_.split(".")[-1] if s_.startswith(conn + ".") else s_
+            # inside a helper of the control stream: self.read_timeout / self.write_timeout / self.timeout are the control stream's
+            m = {"self.read_timeout": ctl.get("read_timeout") or ctl.get("timeout"), "self.write_timeout": ctl.get("write_timeout") or ctl.get("timeout")}
+            return m.get(s_, s_)
+        rd = resolve(kw.get("read_timeout")) or resolve(kw.get("timeout"))
+        wr = resolve(kw.get("write_timeout")) or resolve(kw.get("timeout"))
+        ok = rd == "socket_timeout" and wr == "socket_timeout"
+        ctx.ob("C16.WIRE", st, f"{verb}: data stream read<-{rd}, write<-{wr}", ok,
+               f"{verb}: data stream timeouts are read<-{rd} write<-{wr}; both directions must be bounded by the session's socket_timeout "
+               "(with the control stream's read timeout a stalled upload is held for idle_timeout - or forever)",
+               construct=f"wire:{verb}:{rd},{wr}")
     if n_data < 2:
         ctx.floor_errors.append(f"rule=C16.WIRE: {n_data} data stream constructions (floor 2)")
     # path_io timeout
@@ -162,6 +178,11 @@ def rule_wait(ctx):
     ctx.ob("C16.WAIT", wf[0], f"guard timeout choices {sorted(map(str, choices))}", ok,
            f"guard timeout is selected as {sorted(map(str, choices))}, must be exactly (wait_future_timeout if wait else 0) with no truthiness folding "
            "(`wait and t or 0` turns a configured None = wait forever into 0 = fail at once)", construct=f"wait:timeout selection {sorted(map(str, choices))}")
+    tname = src(targ) if targ is not None else None
+    gated = [src(t) for t, pol in all_guards(p, wf[0], w) if tname and any(isinstance(x, ast.Name) and x.id == tname for x in ast.walk(t))]
+    ctx.ob("C16.WAIT", wf[0], "the wait is not gated by the truthiness of the timeout value (None means wait forever, 0 means fail at once)", not gated,
+           f"the guard's wait is executed only if `{gated[0] if gated else ''}`: a configured wait_future_timeout=None (wait forever) is falsy and the transfer is refused with 425 at once",
+           construct="wait:gated by timeout truthiness")
     in_loop = any(isinstance(q, (ast.For, ast.While, ast.AsyncFor)) for q in _anc(p, wf[0], w))
     ctx.ob("C16.WAIT", wf[0], "the guard's wait is not inside a loop (not re-armed)", not in_loop, "the guard's wait is inside a loop (re-armed)", construct="wait:in loop")
     # the awaited thing is shielded aggregate; timeout error handler replies and returns (C03.WRAP)
